@@ -18,18 +18,91 @@ type Stream struct {
 	buf   []byte
 	Bytes int64 // total bytes handed out
 	Calls int64 // number of Read calls
+	Label string
+	Seed  int64
+	flip  int64    // Read call index answered from the alternate key (-1 = none)
+	alt   [32]byte // alternate key
 }
 
 // New returns the stream for (seed, label).
 func New(seed int64, label string) *Stream {
-	return &Stream{key: sha256.Sum256([]byte(fmt.Sprintf("verif-det|%d|%s", seed, label)))}
+	s := &Stream{key: sha256.Sum256([]byte(fmt.Sprintf("verif-det|%d|%s", seed, label))), Label: label, Seed: seed, flip: -1}
+	regMu.Lock()
+	if f, ok := flips[flipKey{seed, label}]; ok {
+		s.flip = f
+		s.alt = sha256.Sum256([]byte(fmt.Sprintf("verif-det-alt|%d|%s|%d", seed, label, f)))
+	}
+	if recording {
+		created = append(created, s)
+	}
+	regMu.Unlock()
+	return s
+}
+
+type flipKey struct {
+	seed  int64
+	label string
+}
+
+var (
+	regMu     sync.Mutex
+	flips     = map[flipKey]int64{}
+	created   []*Stream
+	recording bool
+)
+
+// SetFlip makes every stream created later for (seed, label) answer its k-th Read call (0-based) with different
+// bytes (all other calls unchanged): "the same party with exactly one random choice made differently".
+func SetFlip(seed int64, label string, k int64) {
+	regMu.Lock()
+	flips[flipKey{seed, label}] = k
+	regMu.Unlock()
+}
+
+// ClearFlips removes all flips.
+func ClearFlips() {
+	regMu.Lock()
+	flips = map[flipKey]int64{}
+	regMu.Unlock()
+}
+
+// Record starts recording the streams created from now on; Recorded returns them and stops.
+func Record() {
+	regMu.Lock()
+	recording, created = true, nil
+	regMu.Unlock()
+}
+
+// Recorded returns the streams created since Record.
+func Recorded() []*Stream {
+	regMu.Lock()
+	defer regMu.Unlock()
+	recording = false
+	out := created
+	created = nil
+	return out
 }
 
 func (s *Stream) Read(p []byte) (int, error) {
 	s.mu.Lock()
 	defer s.mu.Unlock()
+	call := s.Calls
 	s.Calls++
 	n := len(p)
+	if call == s.flip {
+		// consume the same amount of the main stream (so later calls are unchanged) but answer from the alternate key
+		defer func() {
+			var ctr uint64
+			for off := 0; off < n; off += 32 {
+				var blk [40]byte
+				copy(blk[:], s.alt[:])
+				binary.LittleEndian.PutUint64(blk[32:], ctr)
+				ctr++
+				h := sha256.Sum256(blk[:])
+				copy(p[off:], h[:])
+			}
+		}()
+	}
 	for len(s.buf) < n {
 		var blk [40]byte
 		copy(blk[:], s.key[:])
